@@ -7,6 +7,7 @@ import (
 	"go/ast"
 	"go/parser"
 	"go/token"
+	"path/filepath"
 	"sort"
 	"strings"
 )
@@ -377,6 +378,11 @@ const (
 type Opts struct {
 	Type     string `json:"type,omitempty"`              // resolver.type; "" = default "Resolver"
 	FileTmpl string `json:"filename_template,omitempty"` // resolver.filename_template (follow-schema); "" = "{name}.resolvers.go"
+	// Schema: where the two schema sources live (follow-schema): "" = a.graphql, b.graphql;
+	// "same-base" = schema/a/types.graphql + schema/b/types.graphql; "case" = types.graphql +
+	// Types.graphql. In the last two (and with a filename_template without {name}) both sources
+	// map to ONE resolver file.
+	Schema   string `json:"schema_files,omitempty"`
 	OmitDoc  bool   `json:"omit_template_comment,omitempty"`
 	Preserve bool   `json:"preserve_resolver,omitempty"` // existing resolver files are not rewritten
 }
@@ -410,13 +416,35 @@ func (o Opts) canon(name string) string {
 	return name
 }
 
-// resolverFile is the follow-schema resolver file for schema file <name>.graphql.
+// schemaPath is where the schema source with the logical name a.graphql / b.graphql lives.
+func (o Opts) schemaPath(logical string) string {
+	n := strings.TrimSuffix(logical, ".graphql")
+	switch o.Schema {
+	case "same-base":
+		return "schema/" + n + "/types.graphql"
+	case "case":
+		if n == "a" {
+			return "types.graphql"
+		}
+		return "Types.graphql"
+	}
+	return logical
+}
+
+// resolverFile is the follow-schema resolver file for the schema source a / b, as documented:
+// filename_template with {name} = base name of the schema file without extension.
 func (o Opts) resolverFile(name string) string {
 	t := o.FileTmpl
 	if t == "" {
 		t = "{name}.resolvers.go"
 	}
-	return "graph/" + strings.ReplaceAll(t, "{name}", name)
+	base := filepath.Base(o.schemaPath(name + ".graphql"))
+	return "graph/" + strings.ReplaceAll(t, "{name}", strings.TrimSuffix(base, filepath.Ext(base)))
+}
+
+// merged: both schema sources map to one resolver file (file names compare case-insensitively).
+func (o Opts) merged() bool {
+	return strings.EqualFold(o.resolverFile("a"), o.resolverFile("b"))
 }
 
 func (o Opts) String() string {
@@ -426,6 +454,9 @@ func (o Opts) String() string {
 	}
 	if o.FileTmpl != "" {
 		ps = append(ps, "filename_template="+o.FileTmpl)
+	}
+	if o.Schema != "" {
+		ps = append(ps, "schema_files="+o.Schema)
 	}
 	if o.OmitDoc {
 		ps = append(ps, "omit_template_comment")
@@ -461,7 +492,7 @@ func configYAML(layout string, cur Schema, o Opts) string {
 		// Item.owner gets a resolver by configuration; the entry goes away with the field
 		models = "models:\n  Item:\n    fields:\n      owner:\n        resolver: true\n"
 	}
-	return "schema:\n  - a.graphql\n  - b.graphql\nexec:\n  filename: graph/generated.go\n  package: graph\n" +
+	return "schema:\n  - " + o.schemaPath("a.graphql") + "\n  - " + o.schemaPath("b.graphql") + "\nexec:\n  filename: graph/generated.go\n  package: graph\n" +
 		"model:\n  filename: graph/models_gen.go\n  package: graph\n" + res + models + "skip_mod_tidy: true\n"
 }
 
@@ -510,7 +541,7 @@ func (s *State) Hash() string {
 func (s *State) projectFiles() map[string]string {
 	files := map[string]string{"gqlgen.yml": configYAML(s.Layout, s.Cur, s.Opts)}
 	for f, c := range s.Cur.render() {
-		files[f] = c
+		files[s.Opts.schemaPath(f)] = c
 	}
 	for f, c := range s.Go {
 		files[f] = c
@@ -525,8 +556,9 @@ func (s *State) projectFiles() map[string]string {
 type TreeSpec struct {
 	Layout string   `json:"layout"`
 	Opts   Opts     `json:"options"`
-	Bodies []string `json:"bodies"` // body element for Query.alpha, Query.beta, Query.gamma, Mutation.put, Mutation.beta, Item.owner, Query.delta
-	Decls  []string `json:"decls"`  // declaration elements added to the resolver files
+	Enc    string   `json:"encoding,omitempty"` // how the user's editor saved the resolver files (see encode)
+	Bodies []string `json:"bodies"`             // body element for Query.alpha, Query.beta, Query.gamma, Mutation.put, Mutation.beta, Item.owner, Query.delta
+	Decls  []string `json:"decls"`              // declaration elements added to the resolver files
 }
 
 var positions = []string{"queryResolver.Alpha", "queryResolver.Beta", "queryResolver.Gamma", "mutationResolver.Put", "mutationResolver.Beta", "itemResolver.Owner", "queryResolver.Delta"}
@@ -551,12 +583,16 @@ func (t TreeSpec) String() string {
 	if uniform {
 		b = "all:" + t.Bodies[0]
 	}
-	return fmt.Sprintf("%s %s bodies[%s] decls[%s]", t.Layout, t.Opts, b, strings.Join(t.Decls, ","))
+	enc := ""
+	if t.Enc != "" {
+		enc = " encoding=" + t.Enc
+	}
+	return fmt.Sprintf("%s %s%s bodies[%s] decls[%s]", t.Layout, t.Opts, enc, b, strings.Join(t.Decls, ","))
 }
 
 func fileTag(layout string, o Opts, path string) string {
 	switch {
-	case layout == layoutSingle:
+	case layout == layoutSingle || o.merged():
 		return "S"
 	case path == o.resolverFile("a"):
 		return "A"
@@ -571,7 +607,96 @@ func isResolverFile(layout string, o Opts, path string) bool {
 	if layout == layoutSingle {
 		return path == "graph/resolver.go"
 	}
-	return path == o.resolverFile("a") || path == o.resolverFile("b")
+	// every hand-editable Go file of the package except the root resolver file and the
+	// additional hand-written files of this check
+	return strings.HasPrefix(path, "graph/") && path != "graph/resolver.go" && !strings.Contains(path, "_user_")
+}
+
+// encodings of the user's resolver files (the bytes the generator finds at regeneration).
+var encodings = []string{"", "crlf", "mixed-eol", "bom", "no-final-newline", "spaces", "nonascii-preamble"}
+
+func encode(enc, src string) string {
+	switch enc {
+	case "crlf": // CRLF line endings throughout
+		return strings.ReplaceAll(src, "\n", "\r\n")
+	case "mixed-eol": // every fourth line ends in CRLF: inside bodies, raw strings and comments alike
+		var b strings.Builder
+		n := 0
+		for _, c := range src {
+			if c == '\n' {
+				if n%4 == 1 {
+					b.WriteByte('\r')
+				}
+				n++
+			}
+			b.WriteRune(c)
+		}
+		return b.String()
+	case "bom": // UTF-8 byte order mark
+		return "\xEF\xBB\xBF" + src
+	case "no-final-newline":
+		return strings.TrimRight(src, " \t\n")
+	case "spaces": // indentation with four blanks per tab
+		lines := strings.Split(src, "\n")
+		for i, l := range lines {
+			t := strings.TrimLeft(l, "\t")
+			lines[i] = strings.Repeat("    ", len(l)-len(t)) + t
+		}
+		return strings.Join(lines, "\n")
+	case "nonascii-preamble": // multi-byte text before every method: byte offsets != rune offsets
+		i := strings.Index(src, "\n)\n")
+		if i < 0 {
+			return src
+		}
+		i += 3
+		return src[:i] + "\n// pr\u00e9ambule \u2013 \u00e9 \u00e8 \u00fc \u4e2d\u6587 \u2713: non-ASCII text before every method\n\n/* \u00abblock\u00bb \u4e2d */\n" + src[i:]
+	}
+	return src
+}
+
+// mergeGo appends the declarations of resolver file b to resolver file a (one file for two
+// schema sources), adding b's imports that a does not have.
+func mergeGo(a, b string) (string, error) {
+	split := func(src string) (head, rest string, specs []string, err error) {
+		fset := token.NewFileSet()
+		f, err := parser.ParseFile(fset, "", src, parser.ParseComments)
+		if err != nil {
+			return "", "", nil, err
+		}
+		end := 0
+		for _, d := range f.Decls {
+			if g, ok := d.(*ast.GenDecl); ok && g.Tok == token.IMPORT {
+				end = fset.Position(g.End()).Offset
+			}
+		}
+		for _, is := range f.Imports {
+			specs = append(specs, src[fset.Position(is.Pos()).Offset:fset.Position(is.End()).Offset])
+		}
+		return src[:end], src[end:], specs, nil
+	}
+	ha, ra, sa, err := split(a)
+	if err != nil {
+		return "", err
+	}
+	_, rb, sb, err := split(b)
+	if err != nil {
+		return "", err
+	}
+	have := map[string]bool{}
+	for _, s := range sa {
+		have[s] = true
+	}
+	extra := ""
+	for _, s := range sb {
+		if !have[s] {
+			have[s] = true
+			extra += "\t" + s + "\n"
+		}
+	}
+	if extra != "" {
+		extra = "\n\nimport (\n" + extra + ")\n"
+	}
+	return ha + extra + ra + "\n" + rb, nil
 }
 
 func recvTypeName(d *ast.FuncDecl) string {
